@@ -740,6 +740,12 @@ class ADCResponse(APCI):
 
     def to_knx(self) -> bytearray:
         """Serialize to KNX/IP raw data."""
+        if not 0 <= self.channel <= DPTBinary.APCI_BITMASK:
+            raise ConversionError("Channel out of range.")
+        if self.channel and (self.CODE.value | self.channel) in {
+            service.value for service in APCIService
+        }:
+            raise ConversionError("Channel collides with the APCI of another service.")
         payload = struct.pack("!BBH", self.channel, self.count, self.value)
 
         return encode_cmd_and_payload(
@@ -782,6 +788,8 @@ class ADCRead(APCIRequest[ADCResponse]):
 
     def to_knx(self) -> bytearray:
         """Serialize to KNX/IP raw data."""
+        if not 0 <= self.channel <= DPTBinary.APCI_BITMASK:
+            raise ConversionError("Channel out of range.")
         payload = struct.pack("!BB", self.channel, self.count)
 
         return encode_cmd_and_payload(
